@@ -148,7 +148,34 @@ def _submodule_aliases(datas):
         if (mod_, name_) not in _HOME:
             continue
         res["%s::%s::%s" % (mod_, sub_, name_)] = "%s::%s" % (mod_, name_)
+    # the same for the functions the rules know by path (`parser::utility::affected` moved to `parser::utility::reuse::affected`)
+    all_fns = set()
+    for d in datas:
+        if d.get("crate") in ("spl_frontend", "lsp4spl"):
+            all_fns |= {b["p"] for b in d["bodies"] if b.get("k") == "fn"}
+    for p in sorted(all_fns):
+        segs = p.split("::")
+        if len(segs) < 4 or "tests" in segs:
+            continue
+        crate_, name_, sub_ = segs[0], segs[-1], segs[-2]
+        mod_ = "::".join(segs[1:-2])
+        if (mod_, name_) not in _HOME_FNS:
+            continue
+        canonical = "::".join((crate_, mod_, name_))
+        same_name = [q for q in all_fns if q.startswith(crate_ + "::" + mod_ + "::") and q.endswith("::" + name_) and q.count("::") == p.count("::")]
+        if canonical in all_fns or len(same_name) != 1:
+            continue
+        res["%s::%s::%s" % (mod_, sub_, name_)] = "%s::%s" % (mod_, name_)
     return res
+
+
+_HOME_FNS = {("parser::utility", n_) for n_ in ("affected", "expect", "info", "ignore_until0", "ignore_until1", "many", "parse_list",
+                                                "confusable", "inc", "reference", "comma_preceded")} | \
+    {("lexer", "lex"), ("lexer", "update"), ("parser", "parse"), ("parser", "update"), ("table::build", "build"), ("table::semantic", "analyze"),
+     ("features::formatting", "format"), ("features::fold", "fold"), ("features::references", "rename"), ("features::references", "find"),
+     ("features::references", "prepare_rename"), ("features::completion", "propose"), ("features::completion", "new_stmt"),
+     ("features", "doc_cursor"), ("features", "get_doc"), ("features", "names_global_entity"), ("features", "get_local_table"),
+     ("document", "broker"), ("document", "to_text_changes"), ("io", "responder")}
 
 
 # (module, type) pairs the rules speak about by their path on the triaged tree
@@ -225,6 +252,15 @@ class Program:
         for c in self.crates.values():
             if path in c.by_path:
                 return c.by_path[path]
+        # a function that was moved into a (re-exported) submodule of its module is still *the* function of that name for every
+        # user: `parser::utility::affected` -> `parser::utility::reuse::affected`, if it is the only one
+        if "::" in path:
+            prefix, name = path.rsplit("::", 1)
+            cands = [b for c in self.crates.values() for b in c.bodies
+                     if b["p"].endswith("::" + name) and b["p"].startswith(prefix + "::") and b["p"].count("::") == path.count("::") + 1
+                     and b["k"] in ("fn", "const", "static") and "::tests::" not in b["p"]]
+            if len(cands) == 1:
+                return cands[0]
         return None
 
     def find_bodies(self, pred):
